@@ -1093,5 +1093,163 @@ theorem nodup_indexPairs (rows columns : Nat) : (indexPairs rows columns).Nodup 
     simp only [Prod.mk.injEq] at e
     exact hne e.1
 
+theorem cell_transpose_toRows (m : Matrix α) (h : m.Inv) (i j : Nat) (hi : i < m.columns)
+    (hj : j < m.rows) : Rows.cell (Rows.transpose m.toRows) i j = m.tryGet j i := by
+  rw [transpose_toRows m h]
+  unfold Rows.cell
+  simp only [List.getElem?_map, List.getElem?_range hi, Option.map_some, Option.bind_some]
+  rw [getElem?_filterMap_all_some]
+  · simp [List.getElem?_range hj]
+  · intro r hr
+    exact tryGet_isSome m h.1 (List.mem_range.mp hr) hi
+
+theorem ofRows_result {c : Nat} (rs : Rows α) (hrect : Rect c rs) (hn : 1 ≤ rs.length)
+    (hc : 1 ≤ c) : (ofRows rs c).Inv ∧ (ofRows rs c).toRows = rs :=
+  ⟨inv_ofRows hrect hn hc, toRows_ofRows rs hrect⟩
+
+/-- `transpose_mut` on an invariant-satisfying matrix -/
+theorem transposeMut_spec (m : Matrix α) (h : m.Inv) :
+    (m.transposeMut).panic = none ∧ (m.transposeMut).state.Inv ∧
+      (m.transposeMut).state.toRows = Rows.transpose m.toRows := by
+  unfold transposeMut
+  by_cases hsq : m.rows = m.columns
+  · -- square: the swap loop
+    simp only [hsq, ne_eq, not_true_eq_false, if_false]
+    have hS : Sq m.columns m := ⟨hsq, rfl, by rw [h.1, hsq]⟩
+    obtain ⟨h1, h2, h3⟩ := transposeMutLoop_spec (indexPairs m.columns m.columns) m hS
+      (nodup_indexPairs _ _) (fun p hp => mem_indexPairs.mp hp)
+    generalize transposeMutLoop (indexPairs m.columns m.columns) m = res at h1 h2 h3
+    have hinv : res.state.Inv := by
+      refine ⟨by rw [h2.len, h2.rows, h2.cols], by rw [h2.rows]; exact h.2.2,
+        by rw [h2.cols]; exact h.2.2⟩
+    refine ⟨h1, hinv, ?_⟩
+    have hr1 : Rect m.columns res.state.toRows := by
+      have := rect_toRows res.state hinv; rwa [h2.cols] at this
+    have hr2 : Rect m.columns (Rows.transpose m.toRows) := by
+      have := rect_transpose_toRows m h; rwa [hsq] at this
+    apply rows_ext hr1 hr2
+    · rw [length_toRows, length_transpose_toRows m h, h2.rows]
+    · intro i j hi hj
+      rw [length_toRows, h2.rows] at hi
+      rw [cell_toRows, cell_transpose_toRows m h i j hi (by rw [hsq]; exact hj), h3 i j hi hj]
+      have : ((i, j) ∈ indexPairs m.columns m.columns ∧ i ≤ j) ∨
+          ((j, i) ∈ indexPairs m.columns m.columns ∧ j ≤ i) := by
+        rcases Nat.le_total i j with hle | hle
+        · exact Or.inl ⟨mem_indexPairs.mpr ⟨hi, hj⟩, hle⟩
+        · exact Or.inr ⟨mem_indexPairs.mpr ⟨hj, hi⟩, hle⟩
+      rw [if_pos this]
+  · simp only [hsq, ne_eq, not_false_eq_true, if_true, transposeP_spec m h]
+    have := ofRows_result (Rows.transpose m.toRows) (rect_transpose_toRows m h)
+      (by rw [length_transpose_toRows m h]; exact h.2.2) h.2.1
+    exact ⟨trivial, this.1, this.2⟩
+
+/-- `transpose` on an invariant-satisfying matrix -/
+theorem transpose_spec (m : Matrix α) (h : m.Inv) :
+    (m.transpose).panic = none ∧ (m.transpose).state.Inv ∧
+      (m.transpose).state.toRows = Rows.transpose m.toRows := by
+  unfold transpose
+  simp only [transposeP_spec m h]
+  have := ofRows_result (Rows.transpose m.toRows) (rect_transpose_toRows m h)
+    (by rw [length_transpose_toRows m h]; exact h.2.2) h.2.1
+  exact ⟨trivial, this.1, this.2⟩
+
+/-! ## 6. map_mut_with_index -/
+
+theorem foldl_modify_spec (cols : Nat) (f : α → Nat → Nat → α) :
+    ∀ (L : List (Nat × Nat)) (data : List α), L.Nodup → (∀ p ∈ L, p.2 < cols) →
+      (L.foldl (fun d (ij : Nat × Nat) => d.modify (ij.2 + ij.1 * cols) (fun x => f x ij.1 ij.2))
+        data).length = data.length ∧
+      ∀ a b, b < cols →
+        (L.foldl (fun d (ij : Nat × Nat) => d.modify (ij.2 + ij.1 * cols) (fun x => f x ij.1 ij.2))
+          data)[b + a * cols]? =
+          if (a, b) ∈ L then data[b + a * cols]?.map (fun x => f x a b) else data[b + a * cols]? := by
+  intro L
+  induction L with
+  | nil => intro data _ _; simp
+  | cons p L ih =>
+    intro data hnd hr
+    obtain ⟨i, j⟩ := p
+    have hnd' := List.nodup_cons.mp hnd
+    have hj : j < cols := hr (i, j) List.mem_cons_self
+    obtain ⟨h1, h2⟩ := ih (data.modify (j + i * cols) (fun x => f x i j)) hnd'.2
+      (fun p hp => hr p (List.mem_cons_of_mem _ hp))
+    simp only [List.foldl_cons]
+    refine ⟨by rw [h1, List.length_modify], ?_⟩
+    intro a b hb
+    rw [h2 a b hb]
+    by_cases e : a = i ∧ b = j
+    · obtain ⟨rfl, rfl⟩ := e
+      have : (a, b) ∉ L := hnd'.1
+      simp [this]
+    · have hne : j + i * cols ≠ b + a * cols := by
+        intro e'
+        have := getIndex_inj hj hb e'
+        exact e ⟨this.1.symm, this.2.symm⟩
+      have hm : ((a, b) ∈ (i, j) :: L) ↔ (a, b) ∈ L := by
+        simp only [List.mem_cons, Prod.mk.injEq]
+        constructor
+        · rintro (h | h)
+          · exact absurd h e
+          · exact h
+        · exact Or.inr
+      simp only [List.getElem?_modify_ne _ _ hne, hm]
+
+theorem rect_mapIdx {c : Nat} (rs : Rows α) (h : Rect c rs) (f : α → Nat → Nat → α) :
+    Rect c (rs.mapIdx fun i r => r.mapIdx fun j x => f x i j) := by
+  intro r hr
+  obtain ⟨i, hi, rfl⟩ := List.mem_mapIdx.mp hr
+  simp [h _ (List.getElem_mem hi)]
+
+/-- `map_mut_with_index` on an invariant-satisfying matrix -/
+theorem mapMutWithIndex_spec (m : Matrix α) (h : m.Inv) (f : α → Nat → Nat → α) :
+    (m.mapMutWithIndex f).panic = none ∧ (m.mapMutWithIndex f).state.Inv ∧
+      (m.mapMutWithIndex f).state.toRows =
+        m.toRows.mapIdx fun i r => r.mapIdx fun j x => f x i j := by
+  unfold mapMutWithIndex
+  simp only [getIndex]
+  obtain ⟨h1, h2⟩ := foldl_modify_spec m.columns f (indexPairs m.rows m.columns) m.data
+    (nodup_indexPairs _ _) (fun p hp => (mem_indexPairs.mp hp).2)
+  generalize (indexPairs m.rows m.columns).foldl
+    (fun d (ij : Nat × Nat) => d.modify (ij.2 + ij.1 * m.columns) (fun x => f x ij.1 ij.2))
+    m.data = data' at h1 h2
+  have hinv : (⟨data', m.rows, m.columns⟩ : Matrix α).Inv := ⟨by rw [h1]; exact h.1, h.2.1, h.2.2⟩
+  refine ⟨trivial, hinv, ?_⟩
+  apply rows_ext (rect_toRows _ hinv) (rect_mapIdx _ (rect_toRows m h) f)
+  · simp [length_toRows]
+  · intro i j hi hj
+    rw [length_toRows] at hi
+    simp only at hi hj
+    rw [cell_toRows]
+    unfold Rows.cell
+    simp only [List.getElem?_mapIdx, Option.bind_map, Function.comp_def]
+    have hc := cell_toRows m i j
+    unfold Rows.cell at hc
+    simp only [tryGet, getIndex, hi, hj, and_self, if_true] at hc ⊢
+    rw [h2 i j hj, if_pos (mem_indexPairs.mpr ⟨hi, hj⟩), ← hc]
+    cases m.toRows[i]? <;> simp
+
+/-! ## 7. retain (allocating) -/
+
+theorem clone_inv (m : Matrix α) (h : m.Inv) : m.clone = .ok m := by
+  unfold clone fromFlatRowMajor
+  have hne : m.data ≠ [] := by
+    intro e
+    have := h.1
+    rw [e] at this
+    have : 1 ≤ m.rows * m.columns := Nat.mul_le_mul h.2.1 h.2.2
+    simp at *; omega
+  simp [h.1, hne]
+
+theorem retain_eq (m : Matrix α) (h : m.Inv) (a b : Slice) :
+    m.retain a b =
+      match m.retainMut a b with
+      | ⟨r, none⟩ => ⟨r, none⟩
+      | ⟨_, some k⟩ => ⟨m, some k⟩ := by
+  unfold retain
+  simp only [clone_inv m h]
+  generalize m.retainMut a b = res
+  obtain ⟨r, p⟩ := res
+  cases p <;> rfl
+
 end Matrix
 end EasyMl
